@@ -179,6 +179,9 @@ type fnCtx struct {
 	ptrVars     map[*varInfo]bool      // the parameters (and the receiver) of pointer type
 	nonNilUsed  []string               // pointer parameters whose comparison with nil was decided by the topic's assumption
 	blockLabels map[string]*blockLabel // labels on statements of nested blocks (goto targets)
+	// code_nil.go
+	nilVars  map[*varInfo]*nilInfo // nilable pointer parameters (flag + value)
+	nilOrder []*varInfo
 }
 
 type codegen struct {
@@ -223,6 +226,7 @@ type codegen struct {
 	errVarUse       []string
 	// code_parse.go: the topic being translated assumes that pointer parameters are not nil
 	ptrNonNil bool
+	nilable   bool                // code_nil.go: the topic models the pointer parameters it compares with nil as flag + value
 	fnFields  map[string]*fnField // code_osap.go: struct fields of function type
 	// code_topics.go (promoted3): a slice parameter only as the only slice the function can reach
 	strictSliceParams bool
